@@ -1,7 +1,7 @@
 #!/bin/sh
 # usage: lib/seedtest.sh Cxx [srcdir]   -- evaluate a seeded change (srcdir default /tmp/mut-out/Cxx, else /verif/seeded/Cxx)
 # 1. demo passes on /repo, fails on the changed tree   2. ./check Cxx on the changed tree must alarm
-id="$1"; src="${2:-/tmp/mut-out/$id}"
+id="$1"; src="${2:-/tmp/mut-out/$id}"; chk="${3:-$id}"
 wt="/tmp/seed-$id"
 git -C /repo worktree remove --force "$wt" >/dev/null 2>&1
 git -C /repo worktree add --detach "$wt" HEAD >/dev/null 2>&1 || { echo "$id: cannot create worktree"; exit 2; }
@@ -9,8 +9,8 @@ if ! git -C "$wt" apply "$src/patch.diff" 2>/tmp/seed-$id.err; then echo "$id: P
 ( cd "$src" && PYTHONPATH=/repo PYTHONHASHSEED=0 timeout 120 /venv/bin/python demo.py >/tmp/seed-$id.demo0 2>&1 ); d0=$?
 ( cd "$src" && PYTHONPATH="$wt" PYTHONHASHSEED=0 timeout 120 /venv/bin/python demo.py >/tmp/seed-$id.demo1 2>&1 ); d1=$?
 cd /verif
-VERIF_REPO="$wt" ./check "$id" >/tmp/seed-$id.check 2>&1; c=$?
+VERIF_REPO="$wt" ./check "$chk" >/tmp/seed-$id.check 2>&1; c=$?
 v=$(grep -c '^VIOLATION' /tmp/seed-$id.check)
 nf=$(grep -c 'no-failing-input-found' /tmp/seed-$id.check)
-echo "$id: demo(repo)=$d0 demo(changed)=$d1 check_exit=$c violations=$v no_input=$nf $(tail -1 /tmp/seed-$id.check | cut -c1-100)"
+echo "$id (check $chk): demo(repo)=$d0 demo(changed)=$d1 check_exit=$c violations=$v no_input=$nf $(tail -1 /tmp/seed-$id.check | cut -c1-100)"
 git -C /repo worktree remove --force "$wt" >/dev/null 2>&1
